@@ -26,10 +26,13 @@
       node, other GPU group" branches), [Unevict] = undo of the earliest valid evict
       operation, [Commit] with [commitEvict] / [commitPipeline] / [commitAllocate]
       ([commit_run]: one Cache call per valid operation, in order, under a failure
-      oracle for the Evict and Bind calls: a refused eviction is logged,
-      Statement.unevict is called with the pod's status at commit time (the pod
-      stays Releasing / nominated in the session) and the loop goes on; a refused
-      bind cleans the allocation up, clears the operations and returns);
+      oracle for the Evict and Bind calls: a refused eviction is logged, the evict
+      operation is reversed (repair 5a5de9a: Statement.unevict with the status, GPU
+      groups and node recorded when the pod was EVICTED - the pod is back to what
+      it was before the eviction, e.g. Running; [commit_run _ false] is the code
+      before that repair, which handed unevict the values read at commit time, so
+      the pod stayed Releasing / nominated in the session) and the loop goes on; a
+      refused bind cleans the allocation up, clears the operations and returns);
       actions/common/solvers/by_pod_solver.go
       [solve] / [handleScenarioSolution] and job_solver.go [Solve] ([run_scenario]):
       evict the recorded victims and the potential victims of the node under test,
@@ -567,20 +570,36 @@ Inductive vcall :=
 Record faults := mkF { f_evict : nat -> bool; f_bind : nat -> bool }.
 Definition no_faults : faults := mkF (fun _ => false) (fun _ => false).
 
-(** commitEvict's error path: Statement.unevict(reclaimee, previousStatus,
-    evictOp.previousNode, previousGpuGroups, ...) where previousStatus and
-    previousGpuGroups are read from the pod BY commitEvict, just before the Cache
-    call - that is, they are the status and groups the statement gave the pod
-    (Releasing, or Pipelined on its new node when the statement re-placed it),
-    not the ones the evict operation recorded.  So in the session the pod keeps
-    its status, groups and node name; the previous node's copy of the pod is
-    replaced by the pod as it is now (UpdateTask, or AddTask when missing), and
-    the plugins' allocate handlers run (not modelled). *)
-Definition unevict_state (s : sstate) (t : positive) (pn : positive) : sstate :=
+(** commitEvict's error path, as repaired by 5a5de9a: [evictOp.Reverse()], i.e.
+    Statement.unevict(reclaimee, previousStatus, previousNode, previousGpuGroups,
+    previousResourceClaimInfo, previousIsVirtualStatus) with the values the evict
+    operation recorded when the pod was EVICTED: the pod gets its pre-eviction
+    status and GPU groups back in its job; the previous node's copy of the pod is
+    replaced by the pod as it is now (UpdateTask, or AddTask when the statement had
+    moved the pod away), and the plugins' allocate handlers run (not modelled).
+    unevict does not touch NodeName: a pod the statement re-placed on another node
+    before its eviction was refused keeps the new node's name (and that node's
+    copy), with its old status. *)
+Definition unevict_state (s : sstate) (t : positive) (prev : status) (pg : list positive) (pn : positive) : sstate :=
+  match get_task (ss_tasks s) t with
+  | Some _ => mkSS (ss_jobs s) (upd_first t (set_status_groups prev pg) (ss_tasks s)) (entry_set (ss_entries s) t pn pg)
+  | None => s
+  end.
+(** BEFORE repair 5a5de9a: unevict was called with previousStatus and
+    previousGpuGroups read from the pod BY commitEvict, just before the Cache
+    call - the status and groups the statement gave the pod (Releasing, or
+    Pipelined on its new node when the statement re-placed it), not the ones the
+    evict operation recorded.  So in the session the pod kept its status, groups
+    and node name (it stayed Releasing for the rest of the cycle); only the
+    previous node's copy of the pod was refreshed. *)
+Definition unevict_state_commit_time (s : sstate) (t : positive) (pn : positive) : sstate :=
   match get_task (ss_tasks s) t with
   | Some tk => mkSS (ss_jobs s) (ss_tasks s) (entry_set (ss_entries s) t pn (vt_groups tk))
   | None => s
   end.
+(** [restore = true]: the code as it is *)
+Definition unevict_gen (restore : bool) (s : sstate) (t : positive) (prev : status) (pg : list positive) (pn : positive) : sstate :=
+  if restore then unevict_state s t prev pg pn else unevict_state_commit_time s t pn.
 (** commitAllocate's error path: cleanupFailedAllocation = unallocate: Pending, off the node *)
 Definition unallocate_state (s : sstate) (t n : positive) : sstate :=
   mkSS (ss_jobs s) (upd_first t set_unallocated (ss_tasks s)) (entry_del (ss_entries s) t n).
@@ -590,9 +609,11 @@ Definition bound_state (s : sstate) (t : positive) : sstate :=
 
 (** Statement.Commit, operation by operation ([ke] / [kb]: Evict / Bind calls issued so far):
     - invalid (undone) operations are skipped;
-    - evict: commitEvict; when Cache.Evict fails the error is logged, Statement.unevict
-      is called ([unevict_state]: the pod's status does not change) and THE LOOP
-      CONTINUES with the next operation
+    - evict: commitEvict; when Cache.Evict fails the error is logged, the evict
+      operation is reversed ([unevict_state]: the pod gets its pre-eviction status
+      and groups back; [restore = false]: the code before repair 5a5de9a, which
+      left the pod's status as it was at commit time) and THE LOOP CONTINUES with
+      the next operation
       ([carry_on = true], the code as it is; [carry_on = false] is the variant
       that clears the operations and returns at the first refused eviction);
     - pipeline: Cache.TaskPipelined (cannot fail);
@@ -602,25 +623,25 @@ Definition bound_state (s : sstate) (t : positive) : sstate :=
     Returns the calls and the session after the commit.
     Left out: commitEvict's "pod group not found" error (an evict operation only
     exists for a pod whose job is in the session, and jobs do not disappear during a cycle). *)
-Fixpoint commit_run (carry_on : bool) (f : faults) (a : vaction) (pre : positive) (ke kb : nat)
+Fixpoint commit_run (carry_on restore : bool) (f : faults) (a : vaction) (pre : positive) (ke kb : nat)
          (s : sstate) (ops : list sop) : list vcall * sstate :=
   match ops with
   | [] => ([], s)
   | SEvict t prev pg pn true :: r =>
       if f_evict f ke then
-        let s1 := unevict_state s t pn in
+        let s1 := unevict_gen restore s t prev pg pn in
         if carry_on then
-          let '(cs, s2) := commit_run carry_on f a pre (S ke) kb s1 r in (VEvictFailed t a pre :: cs, s2)
+          let '(cs, s2) := commit_run carry_on restore f a pre (S ke) kb s1 r in (VEvictFailed t a pre :: cs, s2)
         else ([VEvictFailed t a pre], s1)
       else
-        let '(cs, s2) := commit_run carry_on f a pre (S ke) kb s r in (VEvict t a pre :: cs, s2)
-  | SEvict _ _ _ _ false :: r => commit_run carry_on f a pre ke kb s r
+        let '(cs, s2) := commit_run carry_on restore f a pre (S ke) kb s r in (VEvict t a pre :: cs, s2)
+  | SEvict _ _ _ _ false :: r => commit_run carry_on restore f a pre ke kb s r
   | SPipe t n gs :: r =>
-      let '(cs, s2) := commit_run carry_on f a pre ke kb s r in (VPipe t n gs :: cs, s2)
+      let '(cs, s2) := commit_run carry_on restore f a pre ke kb s r in (VPipe t n gs :: cs, s2)
   | SAlloc t n gs :: r =>
       if f_bind f kb then ([VBindFailed t n gs], unallocate_state s t n)
       else
-        let '(cs, s2) := commit_run carry_on f a pre ke (S kb) (bound_state s t) r in (VBind t n gs :: cs, s2)
+        let '(cs, s2) := commit_run carry_on restore f a pre ke (S kb) (bound_state s t) r in (VBind t n gs :: cs, s2)
   end.
 
 (** the calls of a commit in which every call is accepted *)
@@ -681,8 +702,9 @@ Inductive sresult :=
 | Discarded
 | NoVerdict.            (* the real code hangs or panics *)
 
-(** [stale = []]: Statement.Evict as it is (guard of bce7109); [carry_on]: Commit as it is; [f]: the failure oracle of the commit *)
-Definition run_scenario_gen (stale : list positive) (carry_on : bool) (f : faults) (env : venv) (a : vaction) (s : sstate) (pre : positive)
+(** [stale = []]: Statement.Evict as it is (guard of bce7109); [carry_on = true], [restore = true]: Commit as it is
+    (repair 5a5de9a); [f]: the failure oracle of the commit *)
+Definition run_scenario_gen (stale : list positive) (carry_on restore : bool) (f : faults) (env : venv) (a : vaction) (s : sstate) (pre : positive)
            (sc : scenario) (sim : list (positive * positive * list positive)) : sresult :=
   match find_job (ss_jobs s) pre with
   | None => Discarded
@@ -699,7 +721,7 @@ Definition run_scenario_gen (stale : list positive) (carry_on : bool) (f : fault
                   match validate env s2 a pj sc with
                   | V true =>
                       if job_solved s s2 pj then
-                        let '(calls, s3) := commit_run carry_on f a pre 0 0 s2 ops2 in Committed calls s3
+                        let '(calls, s3) := commit_run carry_on restore f a pre 0 0 s2 ops2 in Committed calls s3
                       else Discarded
                   | V false => Discarded
                   | _ => NoVerdict
@@ -712,7 +734,7 @@ Definition run_scenario_gen (stale : list positive) (carry_on : bool) (f : fault
   end.
 
 (** the code as it is, for any failure oracle; and without failures *)
-Definition run_scenario_f (f : faults) := run_scenario_gen [] true f.
+Definition run_scenario_f (f : faults) := run_scenario_gen [] true true f.
 Definition run_scenario := run_scenario_f no_faults.
 
 (** * An action: any sequence of scenarios (the order is an oracle) *)
@@ -723,8 +745,8 @@ Record step := mkStep {
   sp_faults : faults;              (* which Cache calls of this statement's commit fail *)
 }.
 
-(** commits accumulate (the session continues from the state the commit left,
-    un-evictions of refused evictions included); a discarded statement leaves the
+(** commits accumulate (the session continues from the state the commit left: a pod
+    whose eviction was refused is back to its pre-eviction status and can be chosen again); a discarded statement leaves the
     session as it was; [None]: the real code hangs or panics *)
 Fixpoint run_steps (env : venv) (s : sstate) (steps : list step) : option (list (step * list vcall) * sstate) :=
   match steps with
